@@ -183,6 +183,9 @@ def loop_direction(ck, fn, loop):
     """True forward / False definitely not forward / raises for unknown"""
     if loop.get("k") == "rangefor":
         r = skip_copies(loop.get("range"))
+        # qAsConst(x) / std::as_const(x) is x itself, seen through a const reference
+        while isinstance(r, dict) and r.get("k") == "call" and name_is(r.get("callee"), ("qAsConst", "std::as_const", "as_const")) and len(r.get("args") or []) == 1:
+            r = skip_copies(r["args"][0])
         if is_this_field(r, P + "::m_handlers"):
             return True
         acc = inline_accessor(ck.facts, r)
